@@ -126,7 +126,10 @@ class PyInterp(Interp):
             out = []
             for e in n.elts:
                 if isinstance(e, ast.Starred):
-                    out.extend(self.eval(e.value, env))
+                    sv = self.eval(e.value, env)
+                    if not isinstance(sv, (list, tuple, set, frozenset, range)):
+                        raise Crash(f"`{src(n)[:50]}`: value after * must be an iterable, not {type(sv).__name__}")
+                    out.extend(sv)
                 else:
                     out.append(self.eval(e, env))
             return tuple(out)
